@@ -152,3 +152,54 @@ func Harness_C16_SymbolicBytes() {
 	}
 	c16RunDamaged(src)
 }
+
+// types that refer to themselves (or to each other in an 'and' group) through
+// every type constructor — slice, function argument / result, slice of
+// functions, function returning a slice — as a record field or a union
+// payload, then used as a parameter type: fc must terminate with its output
+// or a diagnostic, whatever the shape of the cycle
+func Harness_C16_CyclicTypes() {
+	shapes := []string{"[]N", "()->N", "N->string", "int->N", "[](()->N)", "()->[]N", "(int->N)->int", "[][]N"}
+	shape := shapes[verifChoice("shape", len(shapes))]
+	carrier := verifChoice("carrier", 2) // 0 record field, 1 union payload
+	mutual := verifChoice("mutual", 2)   // 1: the cycle goes through a second type of an 'and' group
+	use := verifChoice("use", 3)
+	sub := func(s, name string) string {
+		out := ""
+		for i := 0; i < len(s); i++ {
+			if s[i] == 'N' {
+				out += name
+			} else {
+				out += string(s[i])
+			}
+		}
+		return out
+	}
+	src := "package main\n\n"
+	inner := "Node"
+	if mutual == 1 {
+		inner = "Other"
+	}
+	if carrier == 0 {
+		src += "type Node = {Val: int; Link: " + sub(shape, inner) + "}\n"
+	} else {
+		src += "type Node =\n  | Leaf\n  | Link of " + sub(shape, inner) + "\n"
+	}
+	if mutual == 1 {
+		src += "and Other = {Back: []Node; Tag: string}\n"
+	}
+	src += "\n"
+	switch use {
+	case 0: // the definition alone
+	case 1: // as a parameter type
+		if carrier == 0 {
+			src += "let value (n:Node) =\n  n.Val\n"
+		} else {
+			src += "let isLeaf (n:Node) =\n  match n with\n  | Leaf -> 1\n  | Link _ -> 0\n"
+		}
+	default: // inside other types of a signature
+		src += "let count (ns:[]Node) (f:Node->int) =\n  3\n"
+	}
+	c16RunDamaged(src)
+	verifCover("end")
+}
